@@ -4,7 +4,7 @@
 from ..isa import Isa
 from ..encoding import Instruction, Syntax, Operand
 from ..data_instructions import Dd
-from ...utils.bitfun import inrange
+from ...utils.bitfun import inrange, wrap_negative
 from ..generic_instructions import ArtificialInstruction, Alignment
 from ..generic_instructions import SectionInstruction
 from ..generic_instructions import RegisterUseDef, Global
@@ -230,8 +230,7 @@ class IBase(RiscvInstruction):
         tokens[0][7:12] = self.rd.num
         tokens[0][12:15] = self.func
         tokens[0][15:20] = self.rs1.num
-        self.offset = self.offset & 0xFFF
-        tokens[0][20:32] = self.offset
+        tokens[0][20:32] = wrap_negative(self.offset, 12)
         return tokens[0].encode()
 
 
@@ -366,7 +365,7 @@ class Lui(RiscvInstruction):
 
     def encode(self):
         tokens = self.get_tokens()
-        imm20 = self.imm & 0xFFFFF
+        imm20 = wrap_negative(self.imm, 20)
         tokens[0][0:7] = 0b0110111
         tokens[0][7:12] = self.rd.num
         tokens[0][12:32] = imm20
@@ -507,10 +506,11 @@ class Li(PseudoRiscvInstruction):
         if inrange(self.imm, 12):
             yield Addi(self.rd, R0, self.imm)
         else:
-            if (self.imm & 0x800) != 0:
-                self.imm += 0x1000
-            yield Lui(self.rd, self.imm >> 12)
-            lower_bits = self.imm & 0xFFF
+            imm = self.imm
+            if (imm & 0x800) != 0:
+                imm += 0x1000
+            yield Lui(self.rd, (imm >> 12) & 0xFFFFF)
+            lower_bits = imm & 0xFFF
             yield Addi(self.rd, self.rd, lower_bits)
 
 
@@ -571,8 +571,9 @@ def reg_list_to_mask(reg_list):
 
 class StrBase(RiscvInstruction):
     def encode(self):
-        imml5 = self.offset & 0x1F
-        immh7 = (self.offset >> 5) & 0x7F
+        offset = wrap_negative(self.offset, 12)
+        imml5 = offset & 0x1F
+        immh7 = (offset >> 5) & 0x7F
         tokens = self.get_tokens()
         tokens[0][0:7] = 0b0100011
         tokens[0][7:12] = imml5
